@@ -108,6 +108,8 @@ def _check_header(h, hdr, data, what):
             what, h["_DTYPE"], rdt.descr, data.dtype.descr)
     require(h.get("_DELIM") is None, "%s: binary file header carries _DELIM=%r", what, h.get("_DELIM"))
     for k, v in (hdr or {}).items():
+        if H.is_reserved(k):
+            continue            # reserved names need not survive (statement); the table must (checked by callers)
         require(k in h, "%s: user key %r missing from header read back (keys %r)", what, k, sorted(h))
         require(H.equal_typed(h[k], v), "%s: user key %r: read back %r, written %r", what, k, h[k], v)
 
